@@ -38,7 +38,9 @@ shape, src/virtual.c mute rule, src/player.c volume / pan tails).
   beyond that it wraps (`C14_kernel_wrap_possible`) and superposition holds modulo 2^32 only;
   exchanging the left/right levels and ramps exchanges the left/right words
   (`C14_kernel_mirror`, `_mirror_stereo`), equal levels give equal words (`C14_kernel_center`); the abstract kernel
-  of the tick model is a proved abstraction of every real kernel (`C14_kernel_refines`).
+  of the tick model is a proved abstraction of every real kernel (`C14_kernel_refines`); a freed voice is
+  cleared in every member the kernels read (`C14_voice_reset_clears`, member list generated from mixer.h) and the
+  contributions after a reset do not depend on the slot's past (`C14_voice_reuse_independent`).
 -/
 namespace Xmp.MixLinear
 open Xmp.Gen.MixLinearConsts
@@ -697,6 +699,56 @@ theorem C14_kernel_refines (k : KSpec) (v : KVoice) (a : KArgs) :
     induction fr with
     | nil => rfl
     | cons p r ih => obtain ⟨l, r'⟩ := p; simp [interleave, ih]
+
+/-- **A freed voice is cleared in every member the kernels and the voice loop read**: over the member list
+generated from src/mixer.h, every member a kernel reads (`kernelReads`) and every per-voice memory the voice loop
+reads (`voiceLoopReads`) is a member of `struct mixer_voice` and is 0 in the image of a freed voice (the `paula`
+pointer is kept, its state re-initialised).  The tie compares the members of every free voice of the real player
+with `resetValue`. -/
+theorem C14_voice_reset_clears :
+    (∀ m ∈ kernelReads ++ voiceLoopReads, m ∈ Xmp.Gen.MixKernelVoiceMembers.voiceMembers.map Prod.fst) ∧
+    (∀ m ∈ kernelReads ++ voiceLoopReads, m ≠ "paula" → resetValue m = some 0) ∧
+    (∀ e ∈ voiceReset, e.2 = some 0 ∨ e.2 = some voiceFree ∨ e.1 = "paula") := by decide
+
+/-- **A voice's contribution depends only on its own channel's history**: whatever happened in a voice slot
+before it was freed — any memory `m`, any sequence of kernel calls `pre` of the previous owner (audible or muted,
+filtered or not) — the contributions of the calls after the reset are those of a slot that starts from the zero
+memory.  This is the per-call hypothesis of the superposition theorems (the voice argument of a call is a function
+of its own channel's data) across voice-slot reuse. -/
+theorem C14_voice_reuse_independent (m : SlotMem) (pre post : List SlotEv) :
+    slotRun m (pre ++ SlotEv.reset :: post) = slotRun m pre ++ [] :: slotRun {} post := by
+  induction pre generalizing m with
+  | nil => rfl
+  | cons e es ih => simp only [List.cons_append, slotRun, ih]
+
+/-- in particular two different pasts give the new owner the same contributions -/
+theorem C14_voice_reuse_same (m m' : SlotMem) (pre pre' post : List SlotEv) :
+    (slotRun m (pre ++ SlotEv.reset :: post)).drop (pre.length + 1) =
+    (slotRun m' (pre' ++ SlotEv.reset :: post)).drop (pre'.length + 1) := by
+  have hl : ∀ (m : SlotMem) (es : List SlotEv), (slotRun m es).length = es.length := by
+    intro m es
+    induction es generalizing m with
+    | nil => rfl
+    | cons e es ih => simp [slotRun, ih]
+  rw [C14_voice_reuse_independent, C14_voice_reuse_independent]
+  have e1 : pre.length + 1 = (slotRun m pre ++ [[]]).length := by simp [hl]
+  have e2 : pre'.length + 1 = (slotRun m' pre' ++ [[]]).length := by simp [hl]
+  have a1 : slotRun m pre ++ [] :: slotRun {} post = (slotRun m pre ++ [[]]) ++ slotRun {} post := by simp
+  have a2 : slotRun m' pre' ++ [] :: slotRun {} post = (slotRun m' pre' ++ [[]]) ++ slotRun {} post := by simp
+  rw [a1, a2, e1, e2, List.drop_left, List.drop_left]
+
+set_option maxRecDepth 100000 in
+/-- non-trivial instance: a resonant filtered call of a previous owner leaves a non-zero filter memory; without the
+reset the next owner's filtered call adds different words, with the reset it adds those of a fresh slot -/
+example :
+    let c : OwnerCall := { spec := specOf 1 12, smp := fun i => 1000 * (i % 7) - 3000, pos := 2, frac := 100,
+                           a0 := 1500000, b0 := 3000000, b1 := -400000,
+                           args := { count := 3, vl := 500, vr := 500, step := 40000, ramp := 3, dl := 0, dr := 0 },
+                           nextOldVl := 128000, nextOldVr := 128000 }
+    (slotStep {} (.call c)).2 ≠ {} ∧
+    slotRun {} [.call c, .call c] ≠ slotRun {} [.call c, .reset, .call c] ∧
+    (slotRun {} [.call c, .reset, .call c]).drop 2 = slotRun {} [.call c] := by
+  decide
 
 /-- **Mirror on the kernel level** (mono sample, stereo output): with `(vl, vr)`, `(old_vl, old_vr)`,
 `(delta_l, delta_r)` exchanged the kernel adds the same frames with left and right exchanged and
